@@ -54,6 +54,11 @@ fn for_each_layout(thorough: bool, f: &mut dyn FnMut(&str, Layout)) -> u64 {
   } } }
   // several mappings at once, order must survive
   f("order", Layout { mappings: (0..40).map(|i| mk(vec![codes[(i * 7) % codes.len()], codes[(i * 11 + 3) % codes.len()]], vec![codes[(i * 13 + 5) % codes.len()]], if i % 3 == 0 { Repeat::Disabled } else { Repeat::Normal }, vec![])).filter(|m| m.from[0] != m.from[1]).collect() });
+  // sizes: layouts of n mappings for every n in 40..=130 (the saved file passes 8 KiB / 16 KiB at varying positions) and a few big ones
+  for n in (40..=130usize).chain([200, 346, 500, 1000].iter().cloned()) {
+    f("file-size", Layout { mappings: (0..n).map(|i| mk(vec![codes[(i * 7 + n) % codes.len()], codes[(i * 11 + 3) % codes.len()]], vec![codes[(i * 13 + 5 + n) % codes.len()], codes[(i * 3 + 1) % codes.len()]],
+      if i % 5 == 0 { Repeat::Special { keys: vec![codes[(i + n) % codes.len()]], delay_ms: i as i32, interval_ms: n as i32 } } else if i % 3 == 0 { Repeat::Disabled } else { Repeat::Normal }, vec![])).filter(|m| m.from[0] != m.from[1] && m.to[0] != m.to[1]).collect() });
+  }
   f("empty", Layout { mappings: vec![] });
   // (c) everything the converter produces from the fixed corpus
   for nl in fixed_corpus() { f("converted-corpus", nl.layout); }
@@ -140,7 +145,7 @@ pub fn run(ctx: &Ctx) -> Outcome {
   o.cov("mappings_round_tripped", e.mappings);
   o.cov("key_codes_covered", e.key_codes);
   o.cov("exhaustive", true);
-  o.cov("rule", "every key code KeyCode::from_u16 knows, each in trigger-final, trigger-modifier, output-final, output-modifier, repeat-key and absorbing position; the shape family |from| 1-3 x |to| 0-3 x repeat {Normal, Disabled, Special with 0-2 keys and delay/interval over {0,1,180,i32::MAX,-1,i32::MIN}} x every absorbing subset of the trigger modifiers; a 40-mapping order test; the empty layout; every converted layout of the fixed corpus; the converter's outputs for every 23rd (thorough: every 3rd) program of C13's grammar. Saved, reloaded with the real load_layout_from_file, compared as values in order. distinct_nontrivial = distinct non-empty layouts (by serialised value).".to_string());
+  o.cov("rule", "every key code KeyCode::from_u16 knows, each in trigger-final, trigger-modifier, output-final, output-modifier, repeat-key and absorbing position; the shape family |from| 1-3 x |to| 0-3 x repeat {Normal, Disabled, Special with 0-2 keys and delay/interval over {0,1,180,i32::MAX,-1,i32::MIN}} x every absorbing subset of the trigger modifiers; a 40-mapping order test; layouts of n mappings for every n in 40..=130 and 200/346/500/1000 (saved files around every 8 KiB boundary); the empty layout; every converted layout of the fixed corpus; the converter's outputs for every 23rd (thorough: every 3rd) program of C13's grammar. Saved, reloaded with the real load_layout_from_file, compared as values in order. distinct_nontrivial = distinct non-empty layouts (by serialised value).".to_string());
   o.cov("samples", json!(e.samples));
   o.assumptions = vec!["the scratch-file tier trusts that the installer serialises with serde_json::to_writer_pretty(keys::Layout); the namespace tier calls the real private function".into()];
   let mut seen = std::collections::BTreeSet::new();
